@@ -28,7 +28,7 @@ TraceMaxCap  == Rec[1].max
 
 VARIABLES i,      \* next event
           hs      \* hs[id] = hash of the frame with that id (ids are 1, 2, 3.. per run)
-tvars == <<back, txI, txR, front, rxI, rxR, nWire, nSock, frames, skip, nW, nI, nextId, obs, hist, i, hs>>
+tvars == <<back, txI, txR, txEv, front, rxI, rxR, nWire, nSock, rxEv, frames, skip, nW, nI, nextId, obs, hist, i, hs>>
 
 ASSUME TLCSet(1, 0)
 
@@ -37,9 +37,9 @@ Same(e) == "stream_error" \notin DOMAIN e /\ Post = [tx |-> e.st.tx, rx |-> e.st
 
 T_Reset(e) ==
   /\ e.op = "reset" /\ e.init = InitCap /\ e.max = MaxCap
-  /\ back' = Buf(0, 0, InitCap) /\ txI' = FALSE /\ txR' = FALSE
+  /\ back' = Buf(0, 0, InitCap) /\ txI' = FALSE /\ txR' = FALSE /\ txEv' = Edges
   /\ front' = Buf(0, 0, InitCap) /\ rxI' = TRUE /\ rxR' = FALSE
-  /\ nWire' = 0 /\ nSock' = 0 /\ frames' = <<>> /\ skip' = 0
+  /\ nWire' = 0 /\ nSock' = 0 /\ rxEv' = FALSE /\ frames' = <<>> /\ skip' = 0
   /\ nW' = 0 /\ nI' = 0 /\ nextId' = 1
   /\ obs' = [sent |-> <<>>, delivered |-> <<>>, errs |-> {}]
   /\ hist' = hist /\ hs' = <<>>
